@@ -234,13 +234,50 @@ func parseJSONText(b []byte) (interface{}, error) {
 func addJSON(e *Engine, m map[string]intrinsic) {
 	// json.Marshal / MarshalIndent: the byte-level JSON text is outside every claim; an
 	// opaque placeholder is returned (callers under test only pass it on).
+	// When the marshalled value is a JSON-like tree (string-keyed maps, slices, scalars)
+	// the placeholder remembers the tree as encoding/json would decode it again
+	// (numbers as float64, ...), so that a later json.Unmarshal of *these very bytes*
+	// into an interface{} yields it (Marshal followed by Unmarshal, as gnmidiff does).
 	opaqueJSON := func(p *Path, fr *frame, args []value) value {
-		p.eng.noteStub("encoding/json.Marshal (opaque placeholder text)")
-		return tupleOf(sliceOfBytes([]byte(`"<json text not modelled>"`)), iface{})
+		p.eng.noteStub("encoding/json.Marshal (opaque placeholder text; remembers the decoded tree for a later Unmarshal of the same bytes)")
+		out := sliceOfBytes([]byte(`"<json text not modelled>"`))
+		if p.jsonBlobs == nil {
+			p.jsonBlobs = map[*value]value{}
+		}
+		p.jsonBlobs[&out[0]] = bad{} // decoding these bytes is unsupported unless the tree is known
+		func() {
+			defer func() {
+				if r := recover(); r != nil {
+					if _, ok := r.(unsupported); !ok {
+						panic(r)
+					}
+				}
+			}()
+			p.jsonBlobs[&out[0]] = p.normalizeJSON(args[0])
+		}()
+		return tupleOf(out, iface{})
 	}
 	m["encoding/json.Marshal"] = opaqueJSON
 	m["encoding/json.MarshalIndent"] = opaqueJSON
 	m["encoding/json.Unmarshal"] = func(p *Path, fr *frame, args []value) value {
+		if bs, isSlice := args[0].([]value); isSlice && len(bs) > 0 && p.jsonBlobs != nil {
+			if tree, isBlob := p.jsonBlobs[&bs[0]]; isBlob {
+				if _, poisoned := tree.(bad); poisoned {
+					panic(unsupported{"json.Unmarshal of bytes produced by json.Marshal of a value the JSON model cannot normalise"})
+				}
+				it := args[1].(iface)
+				pt, isPtr := it.t.Underlying().(*types.Pointer)
+				ptr, _ := it.v.(*value)
+				if !isPtr || ptr == nil {
+					return p.mkError("json: Unmarshal(non-pointer or nil)")
+				}
+				if ifc, ok := pt.Elem().Underlying().(*types.Interface); !ok || ifc.NumMethods() != 0 {
+					panic(unsupported{"json.Unmarshal of marshalled placeholder bytes into " + pt.Elem().String()})
+				}
+				store(ptr, deepClone(tree, map[interface{}]value{}))
+				return iface{}
+			}
+		}
 		data, ok := concreteBytes(args[0])
 		if !ok {
 			panic(unsupported{"encoding/json.Unmarshal on symbolic bytes"})
